@@ -511,3 +511,95 @@ Lemma conj_occ : forall i s, kconj (occ i s) = occ i s.
 Proof. intros i s. unfold PresetsSpec.occ. destruct (nth i s false); assumption. Qed.
 
 End PB.
+
+(** * Rearranging sums of matrices *)
+Section Sums.
+Variable K : Type.
+Variables (k0 k1 : K) (kadd kmul ksub : K -> K -> K) (kopp : K -> K).
+Variable kzero : K -> bool.
+Hypothesis Hring : ring_ok K k0 k1 kadd kmul ksub kopp kzero.
+Let Rth : ring_theory k0 k1 kadd kmul ksub kopp (@eq K) := proj1 Hring.
+Add Ring Kring_PBS : Rth.
+Variable M : nat.
+
+Local Notation ksum := (@PolySem.ksum K k0 kadd _).
+Local Notation mat := (PresetsSpec.mat K).
+Local Notation m_zero := (PresetsSpec.m_zero K k0).
+Local Notation m_add := (PresetsSpec.m_add K kadd).
+Local Notation m_sub := (PresetsSpec.m_sub K ksub).
+Local Notation m_scale := (PresetsSpec.m_scale K kmul).
+Local Notation m_sum := (@PresetsSpec.m_sum K k0 kadd _).
+Local Notation m_sum_if := (@PresetsSpec.m_sum_if K k0 kadd _).
+Local Notation meq := (PresetsSpec.meq K M).
+Local Notation rng := PresetsSpec.rng.
+
+Let ks_ext := AlgebraBasics.ksum_ext K k0 kadd.
+Let ks_zero := AlgebraBasics.ksum_zero K k0 k1 kadd kmul ksub kopp kzero Hring.
+Let ks_add := AlgebraBasics.ksum_add K k0 k1 kadd kmul ksub kopp kzero Hring.
+Let ks_scale_l := AlgebraBasics.ksum_scale_l K k0 k1 kadd kmul ksub kopp kzero Hring.
+Let ks_swap := AlgebraBasics.ksum_swap K k0 k1 kadd kmul ksub kopp kzero Hring.
+
+(** [if c then A else 0] *)
+Definition m_when (c : bool) (A : mat) : mat := if c then A else m_zero.
+
+Lemma m_sum_if_when : forall (X : Type) (l : list X) (p : X -> bool) (f : X -> mat),
+  m_sum_if l p f = m_sum l (fun x => m_when (p x) (f x)).
+Proof. reflexivity. Qed.
+
+Lemma m_add_comm : forall A B, meq (m_add A B) (m_add B A).
+Proof. intros A B s u _ _. unfold PresetsSpec.m_add. ring. Qed.
+Lemma m_add_assoc : forall A B C, meq (m_add (m_add A B) C) (m_add A (m_add B C)).
+Proof. intros A B C s u _ _. unfold PresetsSpec.m_add. ring. Qed.
+Lemma m_add_zero_l : forall A, meq (m_add m_zero A) A.
+Proof. intros A s u _ _. unfold PresetsSpec.m_add, PresetsSpec.m_zero. ring. Qed.
+Lemma m_add_zero_r : forall A, meq (m_add A m_zero) A.
+Proof. intros A s u _ _. unfold PresetsSpec.m_add, PresetsSpec.m_zero. ring. Qed.
+Lemma m_scale_add : forall c A B, meq (m_scale c (m_add A B)) (m_add (m_scale c A) (m_scale c B)).
+Proof. intros c A B s u _ _. unfold PresetsSpec.m_add, PresetsSpec.m_scale. ring. Qed.
+Lemma m_scale_zero : forall c, meq (m_scale c m_zero) m_zero.
+Proof. intros c s u _ _. unfold PresetsSpec.m_zero, PresetsSpec.m_scale. ring. Qed.
+Lemma m_scale_scale : forall a b A, meq (m_scale a (m_scale b A)) (m_scale (kmul a b) A).
+Proof. intros a b A s u _ _. unfold PresetsSpec.m_scale. ring. Qed.
+Lemma m_scale_when : forall c (b : bool) A, meq (m_scale c (m_when b A)) (m_when b (m_scale c A)).
+Proof. intros c [|] A; [apply meq_refl|apply m_scale_zero]. Qed.
+Lemma m_when_add : forall (b : bool) A B, meq (m_when b (m_add A B)) (m_add (m_when b A) (m_when b B)).
+Proof. intros [|] A B; [apply meq_refl|]. apply meq_sym, m_add_zero_l. Qed.
+Lemma meq_when : forall (b : bool) A B, (b = true -> meq A B) -> meq (m_when b A) (m_when b B).
+Proof. intros [|] A B H; [apply H; reflexivity|apply meq_refl]. Qed.
+
+Lemma m_sum_zero : forall (X : Type) (l : list X), meq (m_sum l (fun _ => m_zero)) m_zero.
+Proof. intros X l s u _ _. unfold PresetsSpec.m_sum, PresetsSpec.m_zero. apply ks_zero. Qed.
+Lemma m_sum_add : forall (X : Type) (l : list X) (f g : X -> mat),
+  meq (m_sum l (fun x => m_add (f x) (g x))) (m_add (m_sum l f) (m_sum l g)).
+Proof. intros X l f g s u _ _. unfold PresetsSpec.m_sum, PresetsSpec.m_add. apply ks_add. Qed.
+Lemma m_sum_scale : forall (X : Type) (l : list X) c (f : X -> mat),
+  meq (m_sum l (fun x => m_scale c (f x))) (m_scale c (m_sum l f)).
+Proof. intros X l c f s u _ _. unfold PresetsSpec.m_sum, PresetsSpec.m_scale. apply ks_scale_l. Qed.
+Lemma m_sum_swap : forall (X Y : Type) (lx : list X) (ly : list Y) (f : X -> Y -> mat),
+  meq (m_sum lx (fun x => m_sum ly (fun y => f x y))) (m_sum ly (fun y => m_sum lx (fun x => f x y))).
+Proof. intros X Y lx ly f s u _ _. unfold PresetsSpec.m_sum. apply ks_swap. Qed.
+Lemma m_sum_when : forall (X : Type) (l : list X) (b : bool) (f : X -> mat),
+  meq (m_sum l (fun x => m_when b (f x))) (m_when b (m_sum l f)).
+Proof. intros X l [|] f; [apply meq_refl|apply m_sum_zero]. Qed.
+
+(** sum_{j < i} f j = sum_{j < n, j < i} f j for i <= n *)
+Lemma m_sum_lt : forall n i (f : nat -> mat), i <= n ->
+  meq (m_sum (rng i) f) (m_sum_if (rng n) (fun j => j <? i) f).
+Proof.
+  intros n i f H s u _ _. unfold PresetsSpec.m_sum_if, PresetsSpec.m_sum, PresetsSpec.rng. symmetry.
+  rewrite <- (ksum_seq_lt K k0 k1 kadd kmul ksub kopp kzero Hring n i (fun j => f j s u) H).
+  apply ks_ext. intros j _. destruct (j <? i); reflexivity.
+Qed.
+
+(** relabelling a double sum with a symmetric condition *)
+Lemma m_sum_if_sym : forall (l : list nat) (p : nat -> nat -> bool) (f : nat -> nat -> mat),
+  (forall a b, p a b = p b a) ->
+  meq (m_sum l (fun a => m_sum_if l (fun b => p a b) (fun b => f a b)))
+      (m_sum l (fun a => m_sum_if l (fun b => p a b) (fun b => f b a))).
+Proof.
+  intros l p f Hp. unfold PresetsSpec.m_sum_if.
+  eapply meq_trans; [apply m_sum_swap|]. apply meq_sum. intros a _. apply meq_sum. intros b _.
+  rewrite (Hp b a). apply meq_refl.
+Qed.
+
+End Sums.
